@@ -4,6 +4,7 @@ import (
 	"rare/pkg/expressions"
 	"rare/pkg/expressions/stdlib"
 	"rare/pkg/minijson"
+	"sort"
 	"strconv"
 	"strings"
 )
@@ -12,6 +13,7 @@ type SliceSpaceExpressionContext struct {
 	linePtr   string
 	indices   []int
 	nameTable map[string]int
+	names     []string // sorted keys of nameTable (lazy)
 	source    string
 	lineNum   uint64
 }
@@ -57,8 +59,9 @@ func (s *SliceSpaceExpressionContext) json(named, numbered bool) string {
 	jb.OpenEx(len(s.nameTable) * 50)
 
 	if named {
-		for name, idx := range s.nameTable {
-			jb.WriteInferred(name, s.GetMatch(idx))
+		// Always in name order, so the same match always yields the same text
+		for _, name := range s.sortedNames() {
+			jb.WriteInferred(name, s.GetMatch(s.nameTable[name]))
 		}
 	}
 	if numbered {
@@ -72,6 +75,17 @@ func (s *SliceSpaceExpressionContext) json(named, numbered bool) string {
 	jb.Close()
 
 	return jb.String()
+}
+
+func (s *SliceSpaceExpressionContext) sortedNames() []string {
+	if s.names == nil && len(s.nameTable) > 0 {
+		s.names = make([]string, 0, len(s.nameTable))
+		for name := range s.nameTable {
+			s.names = append(s.names, name)
+		}
+		sort.Strings(s.names)
+	}
+	return s.names
 }
 
 func (s *SliceSpaceExpressionContext) array() string {
